@@ -21,7 +21,8 @@ RULE = (
     "(1-D up to 10 cells, 2-D up to 3x4 [thorough 4x4, 3x5], 3-D 2x2x2 [thorough 2x2x3], "
     "cylindrical up to 3x4 [thorough 4x4]) times every periodicity mask, plus random images "
     "(densities 0.1-0.85, shapes to 14x14 / 7^3, anisotropic spacing) and structured shapes "
-    "(U/S shapes, spirals crossing boundaries, rings, stripes, checker boards, touching discs). "
+    "(U/S shapes, spirals crossing boundaries, rings, stripes, checker boards, touching discs, cylindrical "
+    "head-and-tail components longer than half the box). "
     "Non-trivial = a component consisting of >=2 ndimage.label pieces, or >=2 components of "
     "which at least one is legitimately dropped, or a winding component. Distinct = digest "
     "of (grid spec, image bits)."
@@ -360,6 +361,8 @@ def gen(rng, kind, tier):
         return {"grid": spec, "mask": mask.astype(int).tolist()}
     if kind == "rand-cyl":
         spec = geom.rand_cyl_spec(rng, nmin=2, nmax=12)
+        if rng.random() < 0.3:
+            return {"grid": spec, "mask": _head_tail(rng, spec).astype(int).tolist()}
         dens = float(rng.uniform(0.1, 0.85))
         mask = rng.random(spec["shape"]) < dens
         if rng.random() < 0.5:
@@ -368,6 +371,31 @@ def gen(rng, kind, tier):
     if kind == "struct":
         return _gen_struct(rng)
     raise ValueError(kind)
+
+
+def _head_tail(rng, spec):
+    """Cylindrical image with an on-axis component made of a wide head and a long thin tail; the
+    head sits near one end of the box and the tail runs across the (periodic) boundary for more
+    than half a period, while the whole component stays shorter than the box (no winding)."""
+    nr, nz = spec["shape"]
+    mask = np.zeros((nr, nz), bool)
+    total = int(rng.integers(max(2, nz // 2 + 1), nz)) if nz > 3 else max(1, nz - 1)  # z extent in cells, < nz
+    head = int(rng.integers(1, max(2, total // 4 + 1)))
+    wide = nr if rng.random() < 0.6 else int(rng.integers(2, nr + 1))
+    if rng.random() < 0.6:
+        z0 = nz - head - int(rng.integers(0, 3))  # head ends at (or just below) the upper boundary
+    else:
+        z0 = int(rng.integers(nz))
+    for k in range(total):
+        z = (z0 + k) % nz if spec["periodic_z"] else min(max(z0, 0) + k, nz - 1)
+        mask[: (wide if k < head else 1), z] = True
+    if rng.random() < 0.5:
+        mask = mask[:, ::-1].copy()  # head at the other end
+    if rng.random() < 0.3:  # a second, small on-axis blob somewhere else
+        free = [z for z in range(nz) if not mask[0, z] and not mask[0, (z - 1) % nz] and not mask[0, (z + 1) % nz]]
+        if free:
+            mask[0, int(rng.choice(free))] = True
+    return mask
 
 
 def _gen_struct(rng):
@@ -381,6 +409,8 @@ def _gen_struct(rng):
     mask = np.zeros(shape, bool)
     mode = int(rng.integers(0, 8))
     idx = np.indices(shape)
+    if fam == "cyl" and rng.random() < 0.35:
+        return {"grid": spec, "mask": _head_tail(rng, spec).astype(int).tolist()}
     if mode == 0:  # U / S shapes: random walk of a thick path that may cross boundaries
         pos = np.array([int(rng.integers(n)) for n in shape])
         for _ in range(int(rng.integers(5, 40))):
